@@ -359,7 +359,11 @@ func (s Exons) SplicedLen() int {
 // location match.  If and error occurs it returns the old slice (without the
 // new exons) and the error.
 func (s Exons) Add(exons ...Exon) (Exons, error) {
-	newSlice := append(s, exons...)
+	// Build the result in new storage: appending to s itself would sort
+	// the caller's backing array whenever s has spare capacity.
+	newSlice := make(Exons, 0, len(s)+len(exons))
+	newSlice = append(newSlice, s...)
+	newSlice = append(newSlice, exons...)
 	sort.Sort(newSlice)
 	for i, e := range newSlice {
 		if i != 0 && e.Start() < newSlice[i-1].End() {
